@@ -127,11 +127,13 @@ Definition spec_line (body : bytes) : option addrs1 :=
   if is_prefix (PROXY ++ [SP] ++ TCP4 ++ [SP]) body then spec_fields spec_ip4 Tcp4 (dropN 11 body)
   else if is_prefix (PROXY ++ [SP] ++ TCP6 ++ [SP]) body then spec_fields spec_ip6 Tcp6 (dropN 11 body)
   else if beq body (PROXY ++ [SP] ++ UNKNOWN) then Some Unknown
-  else if is_prefix (PROXY ++ [SP] ++ UNKNOWN ++ [SP]) body then (if utf8_valid body then Some Unknown else None)
+  else if is_prefix (PROXY ++ [SP] ++ UNKNOWN ++ [SP]) body then Some Unknown
   else None.
 
 (* the input starts with a line of at most 107 bytes, ended by the first CR which is immediately
-   followed by LF; the header text is that line including its CRLF *)
+   followed by LF; the line is valid UTF-8 (for a TCP4 / TCP6 line this is implied: every admissible
+   field character is ASCII; for UNKNOWN it constrains the free text); the header text is that line
+   including its CRLF *)
 Definition spec_v1 (x : bytes) : option header1 :=
   match first_cr x with
   | None => None
@@ -139,6 +141,7 @@ Definition spec_v1 (x : bytes) : option header1 :=
     let body := takeN i x in
     if negb (nthN (i + 1) x =? LF) || (lenN x <? i + 2) then None
     else if MAX_LENGTH <? i + 2 then None
+    else if negb (utf8_valid (body ++ CRLF)) then None
     else match spec_line body with
          | Some a => Some {| text := body ++ CRLF; addr := a |}
          | None => None
